@@ -434,6 +434,10 @@ type (
 		Type   string
 		Body   Expr
 	}
+	ETypeQuant struct {
+		Var, Set string
+		Body     Expr
+	}
 	ETypeArg struct{ Text string } // a type written where an expression is expected (e.g. []byte, *int)
 )
 
@@ -534,6 +538,21 @@ func (l *lexer) accept(op string) bool {
 }
 
 func (l *lexer) parseQuant() (Expr, error) {
+	if t := l.peek(); t.kind == "ident" && t.text == "forallT" {
+		// forallT T in ints :: body  -- finite conjunction over a set of Go types
+		l.next()
+		v := l.next()
+		in := l.next()
+		set := l.next()
+		if v.kind != "ident" || in.text != "in" || set.kind != "ident" || !l.accept("::") {
+			return nil, fmt.Errorf("forallT T in <set> :: body")
+		}
+		body, err := l.parseQuant()
+		if err != nil {
+			return nil, err
+		}
+		return &ETypeQuant{Var: v.text, Set: set.text, Body: body}, nil
+	}
 	if t := l.peek(); t.kind == "ident" && (t.text == "forall" || t.text == "exists") {
 		l.next()
 		v := l.next()
